@@ -9,7 +9,7 @@
 From Coq Require Import ZArith List Bool.
 From LV Require Import Ws.WsDefs Ws.Base64Defs Ws.Sha1Defs Ws.WsSpecDefs Ws.WsDecoderModel Ws.WsEncoderModel Ws.WsHandshakeModel
   Ws.WsTransparency Ws.WsRefuted Ws.WsPartial Ws.Base64Proofs Ws.WsDecoderProofs4 Ws.WsDecoderProofs6
-  Ws.WsEncoderProofs Ws.WsStrictProofs Ws.WsHandshakeProofs Ws.WsSafetyProofs Ws.WsDrainProofs Ws.WsProgressProofs Ws.WsStrict2Proofs Ws.WsStrict3Proofs Gen.Consts_C09 Gen.Strs_C09.
+  Ws.WsEncoderProofs Ws.WsStrictProofs Ws.WsHandshakeProofs Ws.WsSafetyProofs Ws.WsDrainProofs Ws.WsProgressProofs Ws.WsStrict2Proofs Ws.WsStrict3Proofs Ws.WsHandshakeRoundtrip Gen.Consts_C09 Gen.Strs_C09.
 Import ListNotations.
 Local Open Scope Z_scope.
 
@@ -290,6 +290,46 @@ Example C09_handshake_answer_nonvacuous :
   ws_handshake false ascii_req =
   HsOk (Some [47; 119; 115]) true (hs_proto_0 ++ rfc_accept ++ hs_proto_1 ++ s_base64 ++ hs_proto_2).
 Proof. exact handshake_example. Qed.
+
+(* the whole handshake, from the request bytes: hs_print r is the request
+     GET <path> HTTP/1.1 / Host: <host> / Origin: <origin> / Sec-WebSocket-Key: <key> /
+     [Sec-WebSocket-Protocol: <proto>] / Sec-WebSocket-Version: 13 / blank line
+   (CRLF line ends) for ANY field values without NUL / LF (req_ok; path non-empty; whole request below
+   WEBSOCKETS_MAX_HANDSHAKE_LEN - 1).  ws_handshake (byte-at-a-time line reader, header matching, in-place
+   NUL termination, field extraction, answer) returns exactly [answer r]: the 101 response with
+   accept(<key>) and the sub-protocol chosen from <proto>, the path handed on as wspath. *)
+Theorem C09_handshake_roundtrip : forall r, req_ok r = true ->
+  ws_handshake false (hs_print r) =
+  match ws_accept (q_key r) with
+  | None => HsFault
+  | Some accept =>
+    let '(b64, proto) := chosen_protocol (q_proto r) in
+    HsOk (Some (q_path r)) b64
+      (match proto with
+       | [] => hs_noproto_0 ++ accept ++ hs_noproto_1
+       | _ => hs_proto_0 ++ accept ++ hs_proto_1 ++ proto ++ hs_proto_2
+       end)
+  end.
+Proof. exact handshake_roundtrip. Qed.
+
+Example C09_handshake_roundtrip_nonvacuous :
+  req_ok (mkReq [47; 119; 115] [104] [104; 116; 116; 112; 58; 47; 47; 104] [100; 71; 104; 108] (Some s_binary)) = true /\
+  req_ok (mkReq [47] [104] [120] [100; 71; 104; 108] None) = true.
+Proof. exact handshake_roundtrip_nonvacuous. Qed.
+
+(* refusal: the same request without its Sec-WebSocket-Key line, or without its Sec-WebSocket-Version line,
+   is refused (no 101 answer; the path is still handed back for the caller to free), for all field values;
+   and at the state level: whatever was parsed, a missing version / key / path / host / origin refuses. *)
+Theorem C09_handshake_refuses : forall r, req_ok r = true ->
+  ws_handshake false (hs_print_nokey r) = HsFail (Some (q_path r)) /\
+  ws_handshake false (hs_print_nover r) = HsFail (Some (q_path r)).
+Proof. intros r H. split; [exact (handshake_refuses_nokey r H)|exact (handshake_refuses_nover r H)]. Qed.
+
+Theorem C09_handshake_refuses_state : forall st,
+  hs_version st = 0 \/ hs_key st = None \/ hs_path st = None \/ hs_host st = None \/
+  (hs_origin st = None /\ hs_sorigin st = None) ->
+  hs_finish st = HsFail (hs_wspath st).
+Proof. exact hs_finish_refuses. Qed.
 
 (* ---- the drain obligation of both server loops (rfbCheckFds, clientInput):
    `do rfbProcessClientMessage(cl) while (webSocketsHasDataInBuffer(cl))` ----
